@@ -86,6 +86,11 @@ func runC14(e *Engine, g G, o RunOpt) RunInfo {
 		sv.DelayMs = []int{0, 0, 30}[g.N("delay", 3)]
 		sc.Servers = append(sc.Servers, sv)
 	}
+	if !sc.TLS && g.Pct("stream-domain", 20) {
+		// the stream is opened to another domain than the JID's (hosted domains): the SASL identity
+		// is still the local part
+		sc.Client.StreamDomain = []string{"hosted.example", SimDomain}[g.N("stream-domain-which", 2)]
+	}
 	if sc.TLS {
 		sc.Client.Insecure = false
 		sc.Client.TLS = TLSCfgRoots
